@@ -2,23 +2,30 @@ use crate::eng::*;
 use varpulis_runtime::event::Event;
 pub fn main() {
     let progs = [
-        "stream A = EA\nstream B = EB\nstream J = join(A, B)\n  .on(A.k == B.k)\n  .window(2s)\n  .emit(k: A.k, sa: A.seq, sb: B.seq)",
-        "stream A = EA\nstream B = EB\nstream C = EC\nstream J = join(A, B, C)\n  .on(A.k == B.k and B.k == C.k)\n  .window(2s)\n  .emit(k: A.k, sa: A.seq, sb: B.seq, sc: C.seq)",
-        "stream J = join(EA, EB)\n  .on(EA.k == EB.k)\n  .window(2s)\n  .emit(k: EA.k, sa: EA.seq, sb: EB.seq)",
+        "pattern P = SEQ(A as a, B+ as bs, C as c) within 10s\nstream S = P\n  .emit(sa: a.seq, sc: c.seq)",
+        "pattern P = SEQ(A as a, NOT X, C as c) within 10s\nstream S = P\n  .emit(sa: a.seq, sc: c.seq)",
+        "pattern P = A AND B\nstream S = P\n  .emit(m: 1)",
+        "pattern P = SEQ(A as a, B as b) within 10s partition by k\nstream S = P\n  .emit(sa: a.seq, sb: b.seq)",
+        "pattern P = SEQ(A as a, B+ where v > a.v as bs, C as c)\nstream S = P\n  .emit(sa: a.seq, sc: c.seq)",
+        "pattern P = SEQ(A AND B, C as c)\nstream S = P\n  .emit(sc: c.seq)",
+        "var n = 0\nstream S = A\n  .emit(seq: seq)",
     ];
+    let arg = std::env::args().nth(2);
     for p in progs {
         println!("=== {}", p.replace('\n', " "));
         match Eng::new(p) {
             Err(e) => println!("ERR {}", e),
             Ok(mut en) => {
-                for i in 0..9i64 {
-                    let ty = ["EA", "EB", "EC"][(i % 3) as usize];
-                    let ev = Event::new_at(ty, ts_ms(i * 700)).with_field("seq", i).with_field("k", if i % 2 == 0 { "a" } else { "a" });
+                let tys = arg.clone().unwrap_or("ABBCXABCBAC".to_string());
+                for (i, ch) in tys.chars().enumerate() {
+                    let i = i as i64;
+                    let ty = ch.to_string();
+                    let ev = Event::new_at(ty.as_str(), ts_ms(i * 700)).with_field("seq", i).with_field("k", if i % 2 == 0 { "a" } else { "b" }).with_field("v", i % 4);
                     let out = en.process(ev).unwrap();
                     println!("  in {} {} -> {:?}", i, ty, out.iter().map(show).collect::<Vec<_>>());
                 }
                 let cp = en.engine.create_checkpoint();
-                println!("  cp joins: {:?}", cp.join_states.keys().collect::<Vec<_>>());
+                println!("  cp sase: {:?}", cp.sase_states.keys().collect::<Vec<_>>());
             }
         }
     }
